@@ -133,6 +133,21 @@ func GenWorld(r *common.Rng) *World {
 			if i == n-1 && nDeps == 0 {
 				nDeps = 1
 			}
+			// the latest filtered map so far: half of the time this map reads it (so that both are used by one request)
+			// and, below, is filtered on the same index module
+			prevF, shareF := -1, false
+			for _, pm := range maps {
+				if w.Mods[pm].FilterMod != "" {
+					prevF = pm
+				}
+			}
+			if prevF >= 0 && r.Chance(2, 3) {
+				shareF = true
+				m.Inputs = append(m.Inputs, InputSpec{Kind: "map", Ref: w.Mods[prevF].Name})
+				if w.Mods[prevF].Init > maxInit {
+					maxInit = w.Mods[prevF].Init
+				}
+			}
 			for d := 0; d < nDeps; d++ {
 				switch k := r.Intn(3); {
 				case k == 0 && len(maps) > 0:
@@ -162,10 +177,24 @@ func GenWorld(r *common.Rng) *World {
 			dedupInputs(&m)
 			hasAnchor = anchored(&m)
 			m.Init = pickInit(r, maxInit, hasAnchor)
-			if len(indexes) > 0 && r.Chance(1, 4) {
+			// a second module filtered on the SAME index module (both filters are then evaluated against one loaded index: the
+			// first must not damage what the second reads), with queries that share keys
+			if len(indexes) > 0 && (r.Chance(1, 3) || shareF) {
 				j := indexes[r.Intn(len(indexes))]
 				m.FilterMod = w.Mods[j].Name
-				m.FilterQ = []string{"a", "b", "a || b", "a b", "(a || c) b", "c"}[r.Intn(6)]
+				m.FilterQ = []string{"a", "b", "a || b", "a b", "(a || c) b", "c", "a && c", "b && a", "(a) || c", "a"}[r.Intn(10)]
+				if shareF {
+					if r.Chance(2, 3) { // the earlier filter is a conjunction led by a key, this one reads that key again
+						pair := [][2]string{{"a b", "a"}, {"a && c", "a || c"}, {"b && a", "b"}, {"b a", "a || b"}, {"a && b", "(a) || c"}, {"(b) a", "b || c"}}[r.Intn(6)]
+						w.Mods[prevF].FilterQ, m.FilterQ = pair[0], pair[1]
+					}
+					m.FilterMod = w.Mods[prevF].FilterMod
+					for k := range w.Mods {
+						if w.Mods[k].Name == m.FilterMod {
+							j = k
+						}
+					}
+				}
 				if w.Mods[j].Init > m.Init {
 					m.Init = w.Mods[j].Init
 				}
